@@ -77,6 +77,9 @@ func mgExpr(e ast.Expr) string {
 		for i, a := range v.Args {
 			args[i] = mgExpr(a)
 		}
+		if v.Ellipsis.IsValid() && len(args) > 0 { // f(a, b...): the last argument is spread
+			args[len(args)-1] = "(EUn " + mgCoqString("...") + " " + args[len(args)-1] + ")"
+		}
 		var f string
 		switch ft := v.Fun.(type) {
 		case *ast.ArrayType, *ast.MapType, *ast.InterfaceType, *ast.StarExpr:
@@ -105,6 +108,22 @@ func mgExpr(e ast.Expr) string {
 		return "(EUn " + mgCoqString(v.Op.String()) + " " + mgExpr(v.X) + ")"
 	case *ast.StarExpr:
 		return "(EUn " + mgCoqString("*") + " " + mgExpr(v.X) + ")"
+	case *ast.CompositeLit: // only the empty literal of a slice / map type: []T{}
+		if len(v.Elts) == 0 && v.Type != nil {
+			return "(EId " + mgCoqString(typeText(v.Type)+"{}") + ")"
+		}
+	case *ast.FuncLit: // only the function literal whose body is one "return e": func(a, b T) R { return e }
+		if v.Body != nil && len(v.Body.List) == 1 {
+			if rs, ok := v.Body.List[0].(*ast.ReturnStmt); ok && len(rs.Results) == 1 {
+				var ps []string
+				for _, f := range v.Type.Params.List {
+					for _, n := range f.Names {
+						ps = append(ps, mgCoqString(n.Name))
+					}
+				}
+				return "(EFuncRet " + mgList(ps) + " " + mgExpr(rs.Results[0]) + ")"
+			}
+		}
 	case *ast.ArrayType, *ast.MapType: // a type in expression position: make([]byte, 0, 5)
 		return "(EId " + mgCoqString(typeText(v)) + ")"
 	}
